@@ -70,10 +70,20 @@ class Family:
     def rec(kf):
         return {"b": kf[0], "f": kf[1]}
 
+    # what is stored under some keys is None or another falsy object (a stored None is a value like any other: "nothing stored"
+    # is told by the key, not by the value)
+    SPECIAL = {("B1", "self"): None, ("B2", "self"): False, ("B3", "self"): "", ("B1", "fref"): (), ("B2", "fref"): 0,
+               ("B3", "fref"): 0.0}
+
     def val(self, rec):
+        if (rec["b"], rec["f"]) in self.SPECIAL:
+            return self.SPECIAL[(rec["b"], rec["f"])]
         return "val:%s/%s" % (rec["b"], rec["f"])
 
     def unval(self, v):
+        for kf, sv in self.SPECIAL.items():
+            if v is sv or (type(v) is type(sv) and v == sv):
+                return {"b": kf[0], "f": kf[1]}
         if isinstance(v, str) and v.startswith("val:"):
             b, f = v[4:].split("/")
             return {"b": b, "f": f}
